@@ -9,6 +9,7 @@ mod poolsim;
 mod refmodel;
 mod rng;
 mod schedsim;
+mod dbsim;
 mod sim;
 mod storesim;
 mod txhsim;
@@ -105,6 +106,7 @@ fn main() {
 				Some("poolsim") => poolsim::replay(rp),
 				Some("pibdsim") => pibdsim::replay(rp),
 				Some("schedsim") => schedsim::replay(rp),
+				Some("dbsim") => dbsim::replay(rp),
 				Some("wiresim") => {
 					if rp["property"].as_str() == Some("C11") {
 						wiresim::replay_c11(rp)
